@@ -7,12 +7,19 @@
 package main
 
 import (
+	"context"
 	"encoding/json"
 	"fmt"
 	"math/big"
 	"path/filepath"
+	"regexp"
 	"strings"
 	"sync"
+
+	"github.com/dolthub/dolt/go/libraries/doltcore/doltdb"
+	"github.com/dolthub/dolt/go/libraries/doltcore/sqle/dsess"
+	"github.com/dolthub/dolt/go/libraries/doltcore/sqle/globalstate"
+	"github.com/dolthub/go-mysql-server/sql"
 
 	"verif/harness/internal/hx"
 	"verif/harness/internal/sqleng"
@@ -41,13 +48,15 @@ type op struct {
 	V    string `json:"v,omitempty"`
 	B    string `json:"b,omitempty"`
 	Near int    `json:"near,omitempty"` // exp: value = tmax - Near when V == ""
+	Cur  int    `json:"cur,omitempty"`  // exp: value = (current sequence value) + Cur - 1 when Cur > 0
 }
 
 type kase struct {
-	Type  int  `json:"type"`
-	Start int  `json:"start"` // 0 = from 1; n>0: first an explicit insert of tmax-n
-	Prog  []op `json:"prog"`
-	Conc  int  `json:"conc"` // inserts per goroutine in the concurrent phase (0 = none)
+	Type   int  `json:"type"`
+	Start  int  `json:"start"` // 0 = from 1; n>0: first an explicit insert of tmax-n
+	Prog   []op `json:"prog"`
+	Conc   int  `json:"conc"`             // inserts per goroutine in the concurrent phase (0 = none)
+	Stress int  `json:"stress,omitempty"` // direct tracker stress: calls of Next per goroutine (8 goroutines)
 }
 
 func gen(r *hx.Rng) kase {
@@ -64,7 +73,12 @@ func gen(r *hx.Rng) kase {
 		case 5, 6:
 			k.Prog = append(k.Prog, op{Op: "exp", S: s, V: fmt.Sprint(r.Range(1, 40))})
 		case 7:
-			k.Prog = append(k.Prog, op{Op: "exp", S: s, Near: r.Range(0, 6)})
+			if r.Bool() {
+				k.Prog = append(k.Prog, op{Op: "exp", S: s, Near: r.Range(0, 6)})
+			} else {
+				// exactly the current sequence value (or one above): the boundary of ">= cur"
+				k.Prog = append(k.Prog, op{Op: "exp", S: s, Cur: r.Range(1, 2)})
+			}
 		case 8, 9:
 			k.Prog = append(k.Prog, op{Op: "rbgen", S: s})
 		case 10:
@@ -75,6 +89,9 @@ func gen(r *hx.Rng) kase {
 	}
 	if r.Chance(2, 3) {
 		k.Conc = r.Range(5, 20)
+	}
+	if r.Chance(1, 6) {
+		k.Stress = 2000
 	}
 	return k
 }
@@ -128,9 +145,16 @@ func (r *runner) run(k kase) {
 	replay := k
 
 	r.m.Ask(fmt.Sprintf("init %s 1", ct.Max))
+	modelCur := big.NewInt(1)
+	setCur := func(resp string) {
+		f := strings.Fields(resp)
+		if len(f) > 0 {
+			modelCur = bigOf(f[len(f)-1])
+		}
+	}
 	kctr := 0
-	var generated []*big.Int  // all generated ids, linearization order (sequential phase)
-	var maxExplicit *big.Int  // largest explicit id successfully inserted so far (below tmax)
+	var generated []*big.Int    // all generated ids, linearization order (sequential phase)
+	var maxExplicit *big.Int    // largest explicit id successfully inserted so far (below tmax)
 	seen := map[string]string{} // generated id -> who
 	fail := false
 	recordGen := func(id *big.Int, who string) {
@@ -145,6 +169,7 @@ func (r *runner) run(k kase) {
 		}
 		seen[key] = who
 	}
+	lastErr := ""
 	insert := func(s *sqleng.Session, explicit string) (id *big.Int, cls string) {
 		kctr++
 		var res *sqleng.Result
@@ -154,6 +179,7 @@ func (r *runner) run(k kase) {
 			res = s.Exec(fmt.Sprintf("insert into t (id, k) values (%s, %d)", explicit, kctr))
 		}
 		if res.Err != nil {
+			lastErr = res.Err.Error()
 			return nil, res.Class() + ":" + firstWords(res.Err.Error())
 		}
 		q := s.Exec(fmt.Sprintf("select id from t where k = %d", kctr))
@@ -180,6 +206,7 @@ func (r *runner) run(k kase) {
 				s.MustExec("rollback")
 			}
 			mod := r.m.Ask("gen")
+			setCur(mod)
 			e.Rep.Hit(o.Op + ":" + strings.SplitN(cls, ":", 2)[0])
 			var mv string
 			fmt.Sscan(mod, &mv)
@@ -205,28 +232,42 @@ func (r *runner) run(k kase) {
 				}
 			} else {
 				e.Rep.Hit("gen-failed:" + strings.SplitN(cls, ":", 2)[0])
-				// a failed generated insert: the model handed out mv; it must be out of range or a duplicate
+				// a failed generated insert: the error names the id the tracker handed out
+				// ("duplicate primary key given: [612]", "128 out of range for tinyint"): it must be the
+				// model's id, and it is judged by the oracle like any handed-out id
 				mvb := bigOf(mv)
-				if mvb.Cmp(tmax) <= 0 && !strings.HasPrefix(cls, "dup-key") {
+				if h := handedOut(lastErr); h != nil {
+					if h.Cmp(mvb) != 0 {
+						e.Rep.Disagree(replay, "gen failed, handed out "+h.String()+": "+cls, mod, fmt.Sprintf("%s column, step %+v", ct.SQL, o))
+						fail = true
+					}
+					if maxExplicit != nil && h.Cmp(maxExplicit) <= 0 {
+						e.Rep.Violate(keyExplicit, fmt.Sprintf("%s column: generated id %s (insert rejected: %s) is not above the earlier explicit id %s", ct.SQL, h, cls, maxExplicit), replay)
+						fail = true
+					}
+				} else if mvb.Cmp(tmax) <= 0 && !strings.HasPrefix(cls, "dup-key") {
 					e.Rep.Disagree(replay, "gen failed: "+cls, mod, fmt.Sprintf("%s column, step %+v", ct.SQL, o))
 					fail = true
 				}
 			}
 		case "exp":
 			v := o.V
-			if v == "" {
+			if o.Cur > 0 {
+				v = new(big.Int).Add(modelCur, big.NewInt(int64(o.Cur-1))).String()
+				e.Rep.Hit("exp:at-cur")
+			} else if v == "" {
 				v = new(big.Int).Sub(tmax, big.NewInt(int64(o.Near))).String()
 			}
 			id, cls := insert(s, v)
 			e.Rep.Hit("exp:" + strings.SplitN(cls, ":", 2)[0])
 			if id != nil {
-				r.m.Ask("exp " + v)
+				setCur(r.m.Ask("exp " + v))
 				if id.Cmp(tmax) < 0 && (maxExplicit == nil || id.Cmp(maxExplicit) > 0) {
 					maxExplicit = id
 				}
 			} else if strings.HasPrefix(cls, "dup-key") {
 				// the writer asked the tracker before the key check failed
-				r.m.Ask("exp " + v)
+				setCur(r.m.Ask("exp " + v))
 			}
 		}
 	}
@@ -293,7 +334,95 @@ func (r *runner) run(k kase) {
 			}
 		}
 	}
+	if k.Stress > 0 {
+		r.stress(db, k, seen, replay)
+	}
 	e.Rep.Sample(map[string]any{"type": ct.SQL, "start": k.Start, "steps": len(k.Prog), "conc": k.Conc, "generated": fmt.Sprint(generated)})
+}
+
+var numRe = regexp.MustCompile(`[0-9]+`)
+
+// handedOut extracts the id named by a rejected generated insert ("duplicate primary key given:
+// [612]", "128 out of range for tinyint").
+func handedOut(msg string) *big.Int {
+	if !strings.Contains(msg, "duplicate primary key") && !strings.Contains(msg, "out of range") {
+		return nil
+	}
+	m := numRe.FindString(msg)
+	if m == "" {
+		return nil
+	}
+	return bigOf(m)
+}
+
+// stress: 8 goroutines call the real tracker's Next(nil) for table t directly (no SQL around it, so
+// the load-modify-store regions really overlap in time); every returned value must be new.
+func (r *runner) stress(db string, k kase, seen map[string]string, replay any) {
+	e := r.e
+	const G = 8
+	type gsDB interface {
+		GetGlobalState() globalstate.GlobalState
+	}
+	var ctxs []*sql.Context
+	for i := 0; i < G; i++ {
+		s, err := r.eng.NewSession()
+		if err != nil {
+			panic(err)
+		}
+		s.MustExec("use " + db)
+		ctx, err := r.eng.SE.NewContext(context.Background(), s.Sess)
+		if err != nil {
+			panic(err)
+		}
+		ctxs = append(ctxs, ctx)
+	}
+	sdb, err := dsess.DSessFromSess(ctxs[0].Session).Provider().Database(ctxs[0], db)
+	if err != nil {
+		panic(err)
+	}
+	g, ok := sdb.(gsDB)
+	if !ok {
+		e.Rep.Note(fmt.Sprintf("stress: database type %T has no GetGlobalState", sdb))
+		return
+	}
+	ait, err := dsess.GetAutoIncrementTracker(ctxs[0], g.GetGlobalState())
+	if err != nil {
+		panic(err)
+	}
+	outs := make([][]uint64, G)
+	var wg sync.WaitGroup
+	for i := 0; i < G; i++ {
+		wg.Add(1)
+		go func(i int) {
+			defer wg.Done()
+			for j := 0; j < k.Stress; j++ {
+				v, err := ait.Next(ctxs[i], doltdb.TableName{Name: "t"}, nil)
+				if err != nil {
+					return
+				}
+				outs[i] = append(outs[i], v)
+			}
+		}(i)
+	}
+	wg.Wait()
+	for i := range outs {
+		for j, v := range outs[i] {
+			e.Rep.Hit("stress:next")
+			key := fmt.Sprint(v)
+			if key == "18446744073709551615" {
+				continue // parked at the end of uint64: the known finding
+			}
+			if prev, dup := seen[key]; dup {
+				e.Rep.Violate(keyDup, fmt.Sprintf("%s column: tracker handed out %s twice under concurrency (%s and stress goroutine %d call %d)", colTypes[k.Type].SQL, key, prev, i, j), replay)
+				return
+			}
+			seen[key] = fmt.Sprintf("stress goroutine %d call %d", i, j)
+			if j > 0 && outs[i][j-1] >= v {
+				e.Rep.Violate(keyOrder, fmt.Sprintf("%s column: stress goroutine %d got %d after %d", colTypes[k.Type].SQL, i, v, outs[i][j-1]), replay)
+				return
+			}
+		}
+	}
 }
 
 func firstWords(s string) string {
@@ -335,6 +464,8 @@ func main() {
 	}
 	// the end of uint64: the refuting witness of generated_unique_full, on two branches
 	r.run(kase{Type: 5, Start: 2, Prog: []op{{Op: "gen", S: 0}, {Op: "gen", S: 1}, {Op: "gen", S: 2}, {Op: "gen", S: 0}}})
+	// the concurrency witness: 8 goroutines x 4000 direct Next calls on a fresh bigint table
+	r.run(kase{Type: 4, Prog: []op{{Op: "gen", S: 0}, {Op: "exp", S: 1, Cur: 1}, {Op: "gen", S: 2}}, Stress: e.N(4000, 40000)})
 	n := e.N(60, 600)
 	for i := 0; i < n; i++ {
 		r.run(gen(e.Rng.Fork()))
